@@ -25,6 +25,7 @@ RULE_TEXT = {
 EXPECT = {  # configs in which TLC must FIND the named violation (the model reproduces a defect / the rules discriminate)
     "Forward.D1.cfg": "RulesHold",
     "Forward.D9.cfg": "RulesHold",
+    "Forward.D10.cfg": "RulesHold",
     "Forward.SignFirst.cfg": "SignedIsReceived",
     "Forward.StripLast.cfg": "SignedIsReceived",
 }
@@ -85,7 +86,7 @@ def run(ctx):
     # Leg M: the pipeline step by step
     if quick:
         V.leg_m(ctx, "Forward", "Forward.MCmini.cfg")
-        for cfg in (["Forward.D1.cfg"] if pid == "C03" else ["Forward.D9.cfg", "Forward.SignFirst.cfg"]):
+        for cfg in (["Forward.D1.cfg", "Forward.D10.cfg"] if pid == "C03" else ["Forward.D9.cfg", "Forward.SignFirst.cfg"]):
             expect_violation(ctx, cfg)
         gen = "Forward.GenId.cfg" if pid == "C03" else "Forward.GenSig.cfg"
     else:
@@ -123,9 +124,9 @@ def run(ctx):
             nontrivial += 1
     smp = json.loads(lines[0])
     if smp.get("conc"):
-        for c in smp["conc"].get("cookies", []):
+        for c in smp["conc"].get("cookies") or []:
             c["pair"] = c["pair"][:60]
-        for hl in smp["conc"].get("lines", []):
+        for hl in smp["conc"].get("lines") or []:
             hl["value"] = hl["value"][:80]
         smp["conc"].pop("received", None)
     ctx.cov["samples"].append(smp)
@@ -136,8 +137,8 @@ def run(ctx):
     ctx.cov["exhaustive"] = not quick
     ctx.cov["exhaustive_scope"] = ("every abstract cell of both families executed, %d seeded concretisations each" % reps if not quick
                                    else "TLC model exhaustive; implementation cells sampled by seed (%d of %d)" % (s["distinct"], n))
-    ctx.cov["constants"] = {"Order": "code", "D1Fixed": True, "CLNormalised": True, "BigBodies": not quick,
-                            "Families": ["id", "sig"] if not quick else ([gen.split(".")[1][3:].lower()] + ["mini"]),
+    ctx.cov["constants"] = {"Order": "code", "D1Fixed": True, "CLNormalised": True, "HopSafe": True, "BigBodies": not quick,
+                            "Families": ["id", "sig"] if not quick else ([gen.split(".")[1][3:].lower()] + ["hop", "mini"]),
                             "big_body_bytes": s.get("big_bytes", 0)}
     ctx.assumptions += [
         "upstream `to` is a bare host (no path prefix or query), as the statement says",
